@@ -479,6 +479,7 @@ impl CmdQueue {
 pub struct Cfg {
     pub grease: bool,
     pub max_field: Option<u64>,
+    pub inline_handlers: bool,
     pub wt: bool,
     pub ext_connect: bool,
     pub datagram: bool,
@@ -496,6 +497,7 @@ impl Cfg {
         };
         Cfg {
             grease: v["grease"].as_bool().unwrap_or(false),
+            inline_handlers: v["inline_handlers"].as_bool().unwrap_or(false),
             max_field: if v["max_field_huge"] == true { Some((1u64 << 62) - 1) } else { num(&v["max_field"]) },
             wt: v["wt"].as_bool().unwrap_or(false),
             ext_connect: v["ext_connect"].as_bool().unwrap_or(false),
@@ -650,7 +652,14 @@ fn server_task(tc: TaskCtx, net: Net, cfg: Cfg, cmds: CmdQueue, handlers: Vec<Va
                         .unwrap_or(default_handler.clone());
                     accepted += 1;
                     let htc = tc.child(&format!("h{}", sid));
-                    tc.spawn(&htc, handler_task(htc.clone(), resolver, prog));
+                    if cfg.inline_handlers {
+                        // a server that answers each request before it asks for the next one (accept() is not polled meanwhile)
+                        tc.log.push(json!({"ev": "task_start", "task": htc.name}));
+                        handler_task(htc.clone(), resolver, prog).await;
+                        tc.log.push(json!({"ev": "task_end", "task": htc.name}));
+                    } else {
+                        tc.spawn(&htc, handler_task(htc.clone(), resolver, prog));
+                    }
                 }
                 Some(Ok(None)) => {
                     tc.ret("accept", json!({"k": "none"}));
